@@ -335,6 +335,19 @@ pub fn build(c: &Case, root_abs: &[u8]) -> Built {
     }
     let has_links = flat.iter().any(|(e, _)| matches!(e.kind, Kind::Link(_)));
     let max_depth = flat.iter().map(|(e, _)| e.path.iter().filter(|c| **c == b'/').count()).max().unwrap_or(0);
+    // contents-form spellings (<dir>/. and <dir>/.xvd/..) only for a single real directory given literally
+    let eff_spell: Vec<Spell> = c
+        .srcs
+        .iter()
+        .enumerate()
+        .map(|(i, s)| if matches!(s.spell, Spell::SlashDot | Spell::ChildDotDot) && (nsrc != 1 || !src_is_dir.get(i).copied().unwrap_or(false) || !matches!(c.glob, GlobMode::Off)) { Spell::Plain } else { s.spell })
+        .collect();
+    for (i, sp) in eff_spell.iter().enumerate() {
+        if *sp == Spell::ChildDotDot && i < src_ents.len() {
+            let p = join(&src_tops[i], b".xvd");
+            src_ents[i].push(Ent::dir(&p));
+        }
+    }
     for se in &src_ents {
         ents.extend(se.iter().cloned());
     }
@@ -351,17 +364,19 @@ pub fn build(c: &Case, root_abs: &[u8]) -> Built {
     inv.no_target_dir = no_target_dir;
     inv.target_dir_opt = target_dir_opt;
     let dest_is_dir = !matches!(dest_spec, DestSpec::Absent | DestSpec::File(_));
+    let dspell = if c.dest_spell == Spell::ChildDotDot { Spell::Plain } else { c.dest_spell };
     if c.dest_via_link && dest_is_dir {
         // the mapping rule follows a symlinked destination directory
         ents.push(Ent::link(b"dlink", b"d"));
-        inv.dest = spell(b"dlink", c.dest_spell, root_abs, true);
+        inv.dest = spell(b"dlink", dspell, root_abs, true);
     } else {
-        inv.dest = spell(dname, c.dest_spell, root_abs, dest_is_dir);
+        inv.dest = spell(dname, dspell, root_abs, dest_is_dir);
     }
     match c.glob {
         GlobMode::Off => {
             for (i, s) in c.srcs.iter().enumerate() {
-                inv.sources.push(spell(&src_tops[i], s.spell, root_abs, src_is_dir[i]));
+                let _ = s;
+                inv.sources.push(spell(&src_tops[i], eff_spell[i], root_abs, src_is_dir[i]));
             }
         }
         GlobMode::Star => {
@@ -496,6 +511,9 @@ pub fn judge(c: &Case, rec: &mut Rec) -> Verdict {
     );
     let new = rec.class(key);
     rec.class(format!("spell|src={:?}|dst={:?}", c.srcs[0].spell, c.dest_spell));
+    if b.inv.sources.iter().any(|s| s.ends_with(b"/.") || s.ends_with(b"/..")) {
+        rec.class(format!("source-in-contents-form|{}|dest={}", if b.inv.sources[0].ends_with(b"/..") { "dir/sub/.." } else { "dir/." }, b.dest_state));
+    }
     if mapped.iter().any(|m| m.top && m.kind == K::L) {
         rec.class("top-symlink-source");
     }
@@ -567,6 +585,6 @@ impl Check for C02 {
         }
     }
     fn required_classes(&self, _tier: Tier) -> Vec<String> {
-        ["dest=absent", "dest=file", "dest=emptydir", "dest=populated", "dest=realrun", "glob,", "T,", "td,", "nsrc=3", "top-symlink-source", "spell|src=Abs", "spell|src=DotDot", "dest-through-symlink"].iter().map(|s| s.to_string()).collect()
+        ["dest=absent", "dest=file", "dest=emptydir", "dest=populated", "dest=realrun", "glob,", "T,", "td,", "nsrc=3", "top-symlink-source", "spell|src=Abs", "spell|src=DotDot", "dest-through-symlink", "source-in-contents-form|dir/sub/..", "source-in-contents-form|dir/."].iter().map(|s| s.to_string()).collect()
     }
 }
